@@ -281,3 +281,72 @@ Proof.
       destruct (seq_res_ok _ _ _ _ H) as [Hall _]. destruct (Hall p Hin) as [lp [Ep Hincl]].
       eapply IH; [exact Ep|intros Hf; apply Hnf; apply Hincl; exact Hf|exact Hr'|exact Hl].
 Qed.
+
+(* ---- (e) fuel: the split always reaches the stop, so OutOfFuel never appears ---- *)
+Lemma bernoulli p : 0 < p -> forall k : nat, Z.pow p (Z.of_nat k) + Z.of_nat k * Z.pow p (Z.of_nat k - 1) <= Z.pow (p + 1) (Z.of_nat k) \/ k = 0%nat.
+Proof.
+  intros Hp k. destruct k as [|k]; [right; reflexivity|left].
+  induction k as [|k IH].
+  - change (Z.of_nat 1) with 1. rewrite !Z.pow_1_r. replace (1 - 1) with 0 by lia. rewrite Z.pow_0_r. lia.
+  - replace (Z.of_nat (S (S k))) with (Z.of_nat (S k) + 1) by lia.
+    rewrite !Z.pow_add_r, !Z.pow_1_r by lia.
+    replace (Z.of_nat (S k) + 1 - 1) with (Z.of_nat (S k)) by lia.
+    assert (Hpk : 0 < p ^ Z.of_nat (S k)) by (apply Z.pow_pos_nonneg; lia).
+    assert (Hsplit : p ^ Z.of_nat (S k) = p * p ^ (Z.of_nat (S k) - 1)).
+    { replace (Z.of_nat (S k)) with ((Z.of_nat (S k) - 1) + 1) at 1 by lia. rewrite Z.pow_add_r, Z.pow_1_r by lia. ring. }
+    assert (Hq : 0 <= p ^ (Z.of_nat (S k) - 1)) by (apply Z.pow_nonneg; lia).
+    nia.
+Qed.
+
+Lemma stop_reached a : 0 < a_p a -> a_p a < a_q a -> 0 < a_sn a -> 0 < a_sd a ->
+  at_stop a (Z.to_nat (a_p a * a_sd a)) = true.
+Proof.
+  intros Hp Hpq Hsn Hsd. unfold at_stop. apply Z.leb_le.
+  set (K := Z.to_nat (a_p a * a_sd a)). assert (HK : Z.of_nat K = a_p a * a_sd a) by (unfold K; rewrite Z2Nat.id; nia).
+  assert (HKpos : (K <> 0)%nat) by (intros E; rewrite E in HK; cbn in HK; nia).
+  destruct (bernoulli (a_p a) Hp K) as [Hb|E]; [|contradiction].
+  assert (Hmono : (a_p a + 1) ^ Z.of_nat K <= a_q a ^ Z.of_nat K) by (apply Z.pow_le_mono_l; lia).
+  assert (Hsplit : a_p a ^ Z.of_nat K = a_p a * a_p a ^ (Z.of_nat K - 1)).
+  { replace (Z.of_nat K) with ((Z.of_nat K - 1) + 1) at 1 by lia. rewrite Z.pow_add_r, Z.pow_1_r by lia. ring. }
+  assert (Hq : 0 < a_p a ^ (Z.of_nat K - 1)) by (apply Z.pow_pos_nonneg; lia).
+  assert (Hqk : 0 < a_q a ^ Z.of_nat K) by (apply Z.pow_pos_nonneg; lia).
+  (* q^K >= p^K + K p^(K-1) = p^(K-1) (p + p sd) >= p^(K-1) p sd = p^K sd *)
+  set (P := a_p a ^ (Z.of_nat K - 1)) in *. set (Q := a_q a ^ Z.of_nat K) in *. set (A := (a_p a + 1) ^ Z.of_nat K) in *.
+  rewrite Hsplit in Hb |- *.
+  assert (H1 : a_p a * P * a_sd a <= Q).
+  { assert (H2 : a_p a * P + Z.of_nat K * P <= Q) by lia. rewrite HK in H2.
+    assert (H3 : 0 <= a_p a * P) by nia. replace (a_p a * P * a_sd a) with (a_p a * a_sd a * P) by ring. lia. }
+  assert (H4 : Q <= a_sn a * Q) by nia. lia.
+Qed.
+
+Lemma at_stop_mono a k k' : 0 < a_p a -> a_p a < a_q a -> 0 < a_sn a -> 0 < a_sd a ->
+  (k <= k')%nat -> at_stop a k = true -> at_stop a k' = true.
+Proof.
+  intros Hp Hpq Hsn Hsd Hle H. unfold at_stop in *. apply Z.leb_le in H. apply Z.leb_le.
+  replace (Z.of_nat k') with (Z.of_nat k + Z.of_nat (k' - k)) by lia. rewrite !Z.pow_add_r by lia.
+  set (d := Z.of_nat (k' - k)).
+  assert (Hd : a_p a ^ d <= a_q a ^ d) by (apply Z.pow_le_mono_l; lia).
+  assert (Hpd : 0 < a_p a ^ d) by (apply Z.pow_pos_nonneg; unfold d; lia).
+  assert (Hpk : 0 < a_p a ^ Z.of_nat k) by (apply Z.pow_pos_nonneg; lia).
+  assert (Hqk : 0 < a_q a ^ Z.of_nat k) by (apply Z.pow_pos_nonneg; lia).
+  nia.
+Qed.
+
+Theorem asplit_no_out_of_fuel a R2 : 0 < a_p a -> a_p a < a_q a -> 0 < a_sn a -> 0 < a_sd a ->
+  forall fuel k g ls, (Z.to_nat (a_p a * a_sd a) < fuel + k)%nat ->
+  asplit fuel a R2 k g = Ok ls -> ~ In OutOfFuel ls.
+Proof.
+  intros Hp Hpq Hsn Hsd. set (K := Z.to_nat (a_p a * a_sd a)).
+  induction fuel as [|fuel IH]; intros k g ls Hf H; cbn in H.
+  - destruct (length g <=? a_max a)%nat; [inversion H; subst; intros [E|[]]; discriminate|].
+    assert (Hs : at_stop a k = true) by (eapply (at_stop_mono a K k); try assumption; [lia|apply stop_reached; assumption]).
+    rewrite Hs in H. discriminate.
+  - destruct (length g <=? a_max a)%nat; [inversion H; subst; intros [E|[]]; discriminate|].
+    destruct (at_stop a k); [discriminate|].
+    destruct (seq_res_ok _ _ _ _ H) as [_ [_ HP]].
+    assert (HF : Forall (fun lf => lf <> OutOfFuel) ls).
+    { apply HP.
+      - intros p lp Hp' Ep. rewrite Forall_forall. intros lf Hlf E. subst lf. eapply (IH (S k) p lp); [lia|exact Ep|exact Hlf].
+      - apply dropped_trivial. intros i; discriminate. }
+    rewrite Forall_forall in HF. intros Hin. exact (HF _ Hin eq_refl).
+Qed.
